@@ -2,8 +2,52 @@ from vfprops import PKG
 P = PKG["dkg"]
 PART = {
     "C06": {
-        "runs": [{"name": "dkgnet", "pkg": P, "run": "^TestVF_C06", "timeout": "25m", "timeout_thorough": "90m"}],
-        "rule": "TODO",
-        "assumptions": [],
+        "runs": [{"name": "dkgnet", "pkg": P, "run": "^TestVF_C06", "timeout": "25m", "timeout_thorough": "100m"}],
+        "rule": "engine dkgnet: one case = a real first DKG (genesis = now+3 s) followed by 1-2 real reshares issued after genesis, "
+                "m real dkg.Process + real bolt dkg.db + real kyber DKG over an in-memory net.DKGClient; case parameters are a pure function "
+                "of (seed, index): scheme (all 5, cycled), n in 1..7 (cycled), admissible t, period in {1,2,3,5} s, reshare plan "
+                "(same / +k / -k / replace / threshold up / down), participant lists shuffled per proposal, bus schedule (synchronous uniform delays, "
+                "duplication of packets, asynchronous = reordered bundles, ONE phase's bundles towards ONE node delayed 300-900 ms, synchronously or "
+                "asynchronously). After every participant of an epoch completed or failed, the finished DBState of each node is read back from its "
+                "dkg.db: groups compared field by field (+hash), indices = rank of the public key, share on the public polynomial at its own index, "
+                "all t-subsets (n<=5) / 20 sampled subsets of the shares recover a signature that verifies under the group key. "
+                "non-trivial = at least one epoch completed on >=1 node AND the bus actually delayed/duplicated/reordered something; "
+                "distinct by (scheme,n,t,period,reshare plan,observed delivery order hash). A case whose bundles took longer than 3/4 of the DKG "
+                "phase timeout, or whose traffic did not drain between epochs, is inconclusive (synchrony assumption of the protocol).",
+        "assumptions": [
+            "kyber Scheme.Verify / share.PubPoly.Eval / tbls Recover are the trusted base",
+            "the DKG protocol's synchrony assumption holds: every bundle arrives within its phase (2 s here; schedule delays stay below 1.3 s and the "
+            "harness measures the worst delivery latency), and no bundle of epoch e is delivered during epoch e+1 (the harness drains the echo queues "
+            "between epochs)",
+            "delivery order is seeded but goroutine scheduling and time.Now() are not: a case replays its parameters, not its exact interleaving",
+        ],
+        "race_anchors": ["dkg.(*Process).Executions", "dkg.(*Process).SeenPackets"],
+    },
+    "C08": {
+        "runs": [{"name": "dkgnet", "pkg": P, "run": "^TestVF_C08", "timeout": "25m", "timeout_thorough": "100m"}],
+        "rule": "engine dkgnet: one case = a generated history (5-25 driver steps plus the answers they trigger, up to 3+ epochs) of operator commands "
+                "and gossip packets against 5-7 real dkg.Process with real bolt stores: valid proposals (first / reshare with joiner, leaver), accept / "
+                "reject / join, abort, execute (real DKG, ~35% of histories may execute), failed execution (all bundles lost) and retry at the same "
+                "epoch, expiry of short real timeouts, every invalid proposal class as a command and as a packet correctly signed with the claimed "
+                "leader's real key (stale epoch, nil / empty terms, expired timeout, threshold below minimum / above n, member dropped, genesis time / "
+                "seed changed, unknown scheme, leader not remaining / leaving / joining, foreign beacon id), forged accept/reject/abort/execute packets "
+                "claiming leader / remainer / joiner / leaver / outsider (well signed or signed by somebody else), replays of recorded packets, commands "
+                "from the wrong node. Oracle: (a)-(c) on EVERY write that reaches a node's bolt store (store tap, raw records read before/after the "
+                "write): legal edge for the node's place in the proposal per the harness's own table incl. the terminal-state fall-back, epoch "
+                "monotone, finished record bytes replaced only by SaveFinished(Complete, higher epoch) from Executing; per step: an error answer "
+                "leaves the finished record byte-identical, invalid proposal classes are refused and write nothing, a panic of the real code is a "
+                "violation; at the end: after aborting what is in flight a fresh valid proposal for finished.Epoch+1 is accepted and stored by every "
+                "member (12%: its DKG is run and must complete). non-trivial = the history contains >=1 rejected and >=1 accepted step; distinct by "
+                "the (kind, class, outcome) sequence.",
+        "assumptions": [
+            "the package variable `backoff` (gossip retry back-off) is set to 2 ms by the harness; no logic is changed",
+            "forged packets are signed with the real long-term keys of the claimed sender (the harness owns all keys), so a leader can be told its "
+            "own proposal by gossip; the relation allows Proposed for a node that is the leader of the record",
+            "recoverability is only demanded when all members of the last group hold the same finished epoch and the same group "
+            "(partial completion is the documented operator case; group agreement is C06)",
+            "the number of an aborted / timed-out / failed attempt is discarded with the attempt: epoch monotonicity is then judged against the "
+            "finished epoch",
+        ],
+        "race_anchors": ["dkg.(*Process).Executions", "dkg.(*Process).SeenPackets"],
     },
 }
